@@ -196,6 +196,19 @@ MergeOutputOk(i, w, cfg) ==
        /\ \A j \in 1..Len(new) - 1 :
              TMaxKey(post.tbl[new[j]]) < TMinKey(post.tbl[new[j+1]])
 
+\* a flush may cut its output into several tables (64 MiB target): the recorded cut is taken
+\* over, the content is compared separately
+FlushExpected(i, cfg) ==
+    LET pre == Pre(i) post == Post(i)
+        new == NewTables(i)
+    IN OpFlushWith(pre, Rec[i].op.w, [j \in 1..Len(new) |-> post.tbl[new[j]].e])
+FlushOutputOk(i, cfg) ==
+    LET pre == Pre(i) post == Post(i)
+        new == NewTables(i)
+    IN Latest(pre).sealed = <<>> \/
+       /\ Concat([j \in 1..Len(new) |-> post.tbl[new[j]].e]) = Separate(cfg.sep, FlushOutput(pre, Rec[i].op.w))
+       /\ \A j \in 1..Len(new) - 1 : TMaxKey(post.tbl[new[j]]) < TMinKey(post.tbl[new[j+1]])
+
 \* what the real filter was shown equals what the transcribed stream shows its filter
 ShownOk(i, cfg) ==
     LET r == Rec[i]
@@ -216,7 +229,7 @@ Expected(i, cfg) ==
                                                v |-> r.op.items[j].v] : j \in 1..Len(r.op.items)})
       [] r.op.op = "writes"  -> WritesFold(pre, r.op.items, 1)
       [] r.op.op = "rotate"  -> OpRotate(pre)
-      [] r.op.op = "flush"   -> OpFlushSep(pre, r.op.w, cfg.sep)
+      [] r.op.op = "flush"   -> FlushExpected(i, cfg)
       [] r.op.op \in CompactOps -> CompactExpected(i)
       [] r.op.op = "reopen"  -> OpReopen(pre)
       [] r.op.op = "clear"   -> OpClear(pre)
@@ -570,6 +583,7 @@ StateChecks(i, a, cfg) ==
     /\ (r.op.op \notin CompactOps \/ "choice" \notin DOMAIN r.info
           \/ ChoiceKind(r) # 1 \/ MergeOutputOk(i, r.op.w, cfg)
           \/ Say("DRIFT", "mergeout", i, r.info))
+    /\ (r.op.op # "flush" \/ FlushOutputOk(i, cfg) \/ Say("DRIFT", "flushout", i, r.info))
     /\ (Expected(i, cfg) = st   \/ Say("DRIFT", "state", i, DiffFields(Expected(i, cfg), st)))
     /\ (~cfg.sep.on \/ BlobChecks(i, r, cfg))
     /\ (~cfg.sep.on \/ BlobConforms(i, cfg)
